@@ -372,6 +372,11 @@ func Drive(o DriveOpts) int {
 				if ee, ok := werr.(*exec.ExitError); ok {
 					code = ee.ExitCode()
 				}
+				if open < 0 && code == 4 && last >= 0 {
+					// the child asked to be replaced after finishing case `last`
+					first, sub = last+stride, 0
+					continue
+				}
 				if open < 0 {
 					a.mu.Lock()
 					a.harness = append(a.harness, fmt.Sprintf("batch %d: child exit %d outside any case; log tail: %s", b, code, tail(logs, 600)))
